@@ -101,8 +101,8 @@ pub fn c13(tier: &str) -> ! {
     replay_comp(false);
     let mut rep = Report::new("C13", tier, "exploration");
     let t = tier == "thorough";
-    let cases = Arc::new(if t { table_cases(4, &[1, 16, 64, 256, 1 << 20], 2) } else { table_cases(3, &[1, 16, 64, 256, 1 << 20], 1) });
-    let cursor_len = if t { 3 } else { 2 };
+    let cases = Arc::new(if t { table_cases(4, &[1, 16, 64, 256, 1 << 20], 2) } else { table_cases(3, &[1, 16, 64, 256, 1 << 20], 2) });
+    let cursor_len = if t { 3 } else { 3 };
     let shm = Arc::new(Shm::new(1 << 10, 16 << 20));
     let (shm2, cases2) = (Arc::clone(&shm), Arc::clone(&cases));
     let chunk = 50usize;
